@@ -31,7 +31,7 @@ def _prod(xs):
 
 @st.composite
 def mdp_specs(draw, max_states=10, max_actions=4, max_events=4, min_states=1, allow_v0=True, allow_pol0=True,
-              structure=True, chain=None, reward_scales=(-2, 3), tie_unit=None, scale=None, sticky=None, allow_int_v0=True):
+              structure=True, chain=None, reward_scales=(-2, 3), tie_unit=None, scale=None, sticky=None, allow_int_v0=False):
     """chain: None (free), "hub" (unichain aperiodic by construction), "phase:p" (periodic with period p)."""
     # --- encodings and sizes
     skind = draw(st.sampled_from(["ravel", "offset", "idcol", "halfstep"]))
